@@ -449,7 +449,7 @@ impl Prop for C07 {
         "C07"
     }
     fn rule(&self) -> String {
-        "spend histories over a small key pool: (a) every history of <=3 (thorough <=4) operations over {create-1, create-2, spend-first, spend-last, spend-unknown, repeat-first} x every placement of block boundaries, enumerated; (b) random histories of 5..200 transactions (fan-in/out, spend inside creating block, several inputs on one tx's outputs, unknown outpoints, double references, byte-identical tx re-included, >256 outputs, address-less and zero-value outputs) x 8 coins. The real program is run with -e h for every prefix h of small histories (3 sampled prefixes of long ones) plus a range starting mid-history, writer capacity 1B..4MB; the row set of unspent-S-E.csv must equal the reference UTXO machine stepped to the same height (header exact, no duplicates). Non-trivial = at least one spend and one surviving output; distinct by scenario hash.".into()
+        "spend histories over a small key pool: (a) every history of <=3 (thorough <=4) operations over {create-1, create-2, spend-first, spend-last, spend-unknown, repeat-first} x every placement of block boundaries, enumerated; (b) random histories of 5..200 transactions (fan-in/out, spend inside creating block, several inputs on one tx's outputs, unknown outpoints, double references, byte-identical tx re-included, spends by transactions without outputs, null outpoints among the inputs of ordinary spends, >256 outputs, address-less and zero-value outputs) x 8 coins. The real program is run with -e h for every prefix h of small histories (3 sampled prefixes of long ones) plus a range starting mid-history, writer capacity 1B..4MB; the row set of unspent-S-E.csv must equal the reference UTXO machine stepped to the same height (header exact, no duplicates). Non-trivial = at least one spend and one surviving output; distinct by scenario hash.".into()
     }
     fn exhaustive_note(&self) -> Option<String> {
         Some("histories of <=3 operations (quick) / <=4 (thorough) over 6 operation kinds x all block-boundary placements are enumerated completely; longer histories are sampled".into())
